@@ -222,6 +222,8 @@ def harness(eng, fam, P):
                         raise ValueError('embedded null byte (injected)')
                     raise OSError(errno.ENAMETOOLONG, 'File name too long (injected)', fault_path)
             w.env.hooks.append(hook)
+        # can the call get as far as calling the function?  (every ancestor of the target absent or a directory)
+        chain_free = all(w.fs.kind(w.p(d_)) in (ABSENT, DIR) for d_ in CHAIN[:-1] if target.startswith(d_ + '/'))
         try:
             vi = FileBuilder.build(w.cache, 'n', ri.root)
             impl = ('ok', vi)
@@ -278,6 +280,10 @@ def harness(eng, fam, P):
                       ret == [1, [2, {'k': [3]}]] and type(ret) is list and type(ret[1]) is list and
                       type(ret[1][1]['k']) is list, sig, info={'ret': repr(ret)})
         elif oi.get('outcome') is not None:
+            if P.get('long_name') and fault_path is None and mode.startswith('raise') and fam == 'fresh' and chain_free:
+                # nothing prevents the call itself (the parents can be created, the target is absent): the function runs and
+                # it is its own exception that comes back
+                eng.check('C10.function-not-called', ri.calls >= 1, sig, info={'outcome': oi.get('outcome')})
             if ri.raised is not None:
                 eng.witness('user-failure')
                 eng.check('C10.same-exception-object', oi.get('exc') is ri.raised, sig)
